@@ -235,7 +235,7 @@ Proof.
     destruct b as [|x [|y r]];
     repeat (match goal with |- clean (match ?x with _ => _ end) => destruct x end);
       try (constructor; fail); apply clean_create.
-  - unfold dec_bits. destruct (N.eqb l 0); [constructor|]. rewrite Hts.
+  - unfold dec_bits. rewrite Hts. destruct (N.eqb l 0); [constructor|].
     apply clean_pbind; [apply clean_read1|]. intros tb. destruct (N.ltb 7 tb); [constructor|].
     apply clean_pbind; [apply clean_read_len|]. intros b. apply clean_pbind; [apply clean_lift|]. intros bs. apply clean_create.
   - unfold dec_octets. rewrite Hts. apply clean_pbind; [apply clean_read_len|]. intros b. apply clean_create.
